@@ -106,6 +106,10 @@ func RunShard(spec *Spec, tier string, shard, nshards int, deadline time.Time) {
 	for in.Scan() {
 		var i int
 		if _, err := fmt.Sscan(in.Text(), &i); err != nil || i < 0 || i >= len(scs) {
+			// the parent waits for one line per index: a scenario list that differs between the processes
+			// (it may depend on how the code under test behaves) must not leave both sides waiting
+			w.WriteString("{}\n")
+			w.Flush()
 			continue
 		}
 		r := runScenario(i, scs[i], deadline)
@@ -183,6 +187,9 @@ func Main(spec *Spec, tier string) int {
 					mu.Unlock()
 					return
 				}
+				// watchdog: a shard that is still busy long after the deadline is stuck outside the scheduler's control
+				wd := time.AfterFunc(time.Until(deadline)+90*time.Second, func() { cmd.Process.Kill() })
+				defer wd.Stop()
 				sc := bufio.NewScanner(po)
 				sc.Buffer(make([]byte, 1<<20), 1<<26)
 				for {
